@@ -316,6 +316,56 @@ pub fn legal_task(rng: &mut Rng, max_keys: usize) -> (TaskSpec, Vec<Item>) {
     )
 }
 
+/// A map in which pairs of DIFFERENT sibling nodes have the same 64-bit
+/// FNV-1a value under the hash the node cache documents (is_final,
+/// final_output, then inp / out / addr per transition): {final, a -> out1}
+/// and {final, b -> out2} with out2 solved from out1. Such nodes meet in the
+/// same cache bucket with the same full hash and are compiled one right after
+/// the other; only a real comparison of the nodes tells them apart. (If the
+/// library hashes differently these are ordinary keys.)
+pub fn fnv_colliding_task(rng: &mut Rng) -> (TaskSpec, Vec<Item>) {
+    const P: u64 = 1099511628211;
+    let h0 = {
+        let mut h: u64 = 14695981039346656037;
+        h = (h ^ 1).wrapping_mul(P); // is_final
+        h = (h ^ 0).wrapping_mul(P); // final_output
+        h
+    };
+    let groups = rng.urange(1, 3);
+    let mut parents: Vec<u8> = Vec::new();
+    while parents.len() < 2 * groups {
+        let b = *rng.pick(b"bcdefghijklmnopqrstuvwxy");
+        if !parents.contains(&b) {
+            parents.push(b);
+        }
+    }
+    parents.sort();
+    let mut items: Vec<Item> = Vec::new();
+    for g in 0..groups {
+        let (p1, p2) = (parents[2 * g], parents[2 * g + 1]);
+        let a = rng.next_u64() as u8;
+        let mut b = rng.next_u64() as u8;
+        if b == a {
+            b = a.wrapping_add(1);
+        }
+        let out1 = 1 + rng.below(1 << 20);
+        let out2 = out1 ^ (h0 ^ a as u64).wrapping_mul(P) ^ (h0 ^ b as u64).wrapping_mul(P);
+        items.push((vec![p1], 0));
+        items.push((vec![p1, a], out1));
+        items.push((vec![p2], 0));
+        items.push((vec![p2, b], out2));
+    }
+    if rng.chance(1, 2) {
+        items.insert(0, (b"a".to_vec(), 0));
+    }
+    if rng.chance(1, 2) {
+        items.push((b"z".to_vec(), 0));
+    }
+    let fr = *rng.pick(&[Front::Map, Front::Raw]);
+    let ops = group_ops(rng, fr, &items);
+    (TaskSpec { front: fr, registry: geometry(rng), ops, fin: fin(rng) }, items)
+}
+
 /// Benign acceptance shape (nothing may fail).
 pub fn benign_shape(rng: &mut Rng) -> Shape {
     match rng.below(8) {
